@@ -3,12 +3,16 @@
 HOOK_COMMITS = ['afbbdb338']
 
 ENGINES = [
+    dict(name='E3-LPE', path='harness/ (per-property lattice products)', serves_properties=['C05', 'C06', 'C07', 'C08', 'C09', 'C14', 'C15', 'C16'],
+         kind_free_text='exhaustive enumeration of full Cartesian products of boundary-value alphabets (inputs of pure functions, validity bit-vectors, '
+                        'truncation offsets) against the real library code with reference oracles'),
     dict(name='E2-HBFS', path='engine/hbfs.hpp', serves_properties=['C10', 'C11', 'C12', 'C13'],
          kind_free_text='explicit-state breadth-first search over operation histories of the real object (fresh object + replay), '
                         'canonical state = dump of the private representation, all queries vs. a reference model in every state'),
 ]
 
 HARNESSES = {
+    'C05': [dict(name='c05_motion', src=['C05_motion.cpp'], flavour='asan')],
     'C10': [dict(name='c10_nn', src=['C10_nn.cpp'], flavour='hdr',
                  repo_src=['/repo/src/ompl/util/src/RandomNumbers.cpp', '/repo/src/ompl/util/src/Console.cpp', '/repo/src/ompl/util/src/ProlateHyperspheroid.cpp', '/repo/src/ompl/util/src/GeometricEquations.cpp'], cflags=['-O2'])],
     'C11': [dict(name='c11_heap', src=['C11_heap.cpp'], flavour='hdr')],
@@ -22,6 +26,15 @@ HBFS_NOTE = ('Trusted: the harness reference model and canonical dump (read with
              'Silent outside the stated alphabet, size cap and depth; closure is claimed only where evidence.bounds.closure is true.')
 
 PROPERTY_META = {
+    'C05': dict(
+        deadline_quick=300, deadline_thorough=1500, engine='E3-LPE', design_ref='5/C05',
+        technique='exhaustive enumeration of all 2^n validity assignments over the n subdivision points, for every n up to the bound, against the real motion validators',
+        level_text='For R^1, SO(2) across the seam, SE(2), a weighted compound, Dubins (plain and symmetric), Reeds-Shepp and Owen (3D Dubins validator), factors 1-3 and '
+                   'several pairs each (incl. identical and boundary pairs), every subdivision count n <= 10 (quick) / 14 (thorough) is realised by sweeping the resolution and '
+                   'ALL 2^n validity bit-vectors are executed through both forms of checkMotion plus the nullptr and aliased lastValid variants; verdict, agreement, fraction, '
+                   'last-valid state, untouched storage on success, counters, queried points. Also all bit-vectors for checkMotion(states,count[,first]) and getMotionStates.',
+        level_note='Trusted: the recording validity checker (matches queried states bitwise to harness-computed interpolation points), g++/ASan build of libompl. '
+                   'Exhaustive in the validity predicate for each n; pairs and spaces are a finite alphabet; silent for n above the bound.'),
     'C10': dict(
         deadline_quick=420, deadline_thorough=1500, engine='E2-HBFS', design_ref='5/C10',
         technique='explicit-state BFS over op histories of the real GNAT/GNATNoThreadSafety/Linear/SqrtApprox with canonical tree states; brute-force oracle on every query in every state',
